@@ -3,6 +3,7 @@ C02 — Every code point carries its Unicode 13.0.0 break class.
 All statements are about the tables REGENERATED from /repo on every run.
 -/
 import RosedVerif.Gem.TableProofs
+import RosedVerif.Gem.Probes
 namespace RosedVerif.Props
 open RosedVerif Cls
 set_option maxRecDepth 1000000
@@ -130,5 +131,37 @@ theorem C02_hangul_lvt (r : Int) :
 example : classOf 0x1F468 = extpict ∧ classOf 0x0301 = extend ∧ classOf 0xAC00 = lv ∧
     classOf 0xAC01 = lvt ∧ classOf (-5) = other ∧ classOf 0x110000 = other ∧ classOf 0x41 = other := by
   decide +kernel
+
+/-! ### observational / named-corollary restatements -/
+
+
+/-- **C02, observational form** (13 probes: the original nine followed by CR·c, c·LF, ExtPict·c·ExtPict,
+V·c): for EVERY rune value, what is observed on the probes is the class-level signature of its
+Unicode 13.0.0 class -/
+theorem C02_probe (c : Int) : probeSig13 c = sigOf13 (ref13 c) := probeSig13_eq c
+
+/-- "each code point behaves as exactly one class" -/
+theorem C02_probe_determines_class (c : Int) (X : Cls) : probeSig13 c = sigOf13 X ↔ ref13 c = X :=
+  probe13_determines_class c X
+
+/-- the thirteen probes tell all fifteen classes apart (ExtPict included) -/
+theorem C02_probes_distinguish : ∀ X Y : Cls, sigOf13 X = sigOf13 Y → X = Y := sigOf13_injective
+
+/-- FINDING: the original nine probes do NOT; they coincide exactly on {CR, LF, Control},
+{ZWJ, SpacingMark}, {V, LV} (`probeRep` maps each class to the representative of its group) -/
+theorem C02_nine_probes_coincide (X Y : Cls) : sigOf X = sigOf Y ↔ probeRep X = probeRep Y :=
+  sigOf_eq_iff X Y
+
+theorem C02_nine_probes_not_injective :
+    sigOf cr = sigOf lf ∧ sigOf cr = sigOf control ∧ sigOf zwj = sigOf spacing ∧ sigOf v = sigOf lv :=
+  sigOf_not_injective
+
+/-- the nine-probe observation is nevertheless the signature of the Unicode 13.0.0 class … -/
+theorem C02_probe9 (c : Int) : probeSig c = sigOf (ref13 c) := probeSig_eq c
+
+/-- … and determines the class up to the three groups -/
+theorem C02_probe9_determines_class_partial (c : Int) (X : Cls) :
+    probeSig c = sigOf X ↔ probeRep (ref13 c) = probeRep X := probe_determines_class_partial c X
+
 
 end RosedVerif.Props
